@@ -319,6 +319,20 @@ def run(ctx):
     except Skip:
         pass
 
+    # the awaited delete() of the graceful path returns because its ticket resolves when the job ends: ticket shape + flag protocol (rules owned by C07)
+    for fn8 in (jobrules.ticket_shape, jobrules.wake_protocol):
+        try:
+            fn8(ctx, "R08.7")
+        except Skip:
+            pass
+    # an interrupt / terminate reaches the handler at all: the signal source queues it (blocking send, failure reported) at Urgent priority (rules owned by C01)
+    from . import c01 as _c01q
+    for fn8 in (_c01q.source_priorities, _c01q.source_send_paths):
+        try:
+            fn8(ctx, "R08.5")
+        except Skip:
+            pass
+
     # ---- R08.6 wrappers
     try:
         ic8 = ctx.anchor_fn("R08.6", "watchexec_cli::config::interpret_command_args")
